@@ -1070,6 +1070,11 @@ def t_dim(it, t):
     return t.ndim
 
 
+@tmethod("is_floating_point")
+def t_is_floating_point(it, t):
+    return t.dtype == "real"
+
+
 @tmethod("numel", "nelement")
 def t_numel(it, t):
     n = 1
@@ -1322,6 +1327,8 @@ def _argext(it, t, dim, keepdim, is_min):
     """argmin / argmax along one dimension: an uninterpreted index function constrained by the library's contract
     (index of the first extremal entry; NaN-free real entries).  An empty dimension raises."""
     t = as_tensor(it, t)
+    if dim is None and t.ndim == 1:
+        dim = 0            # the flattened tensor is the tensor itself
     if dim is None or keepdim:
         raise OutOfSubset("argmin/argmax without dim or with keepdim")
     dim = dim % t.ndim
